@@ -43,14 +43,17 @@ const AKS: &[AK] = &[
     AK { id: "rfn", ty: "&dyn Fn(u32) -> u32", pass: "&$", is_ref: true, fixed: true, owned: false, closure: true, quick: true },
     AK { id: "rfnmut", ty: "&mut dyn FnMut(u32)", pass: "&mut $", is_ref: true, fixed: true, owned: false, closure: true, quick: true },
     AK { id: "boxfn", ty: "Box<dyn Fn(u32) -> u32>", pass: "$", is_ref: false, fixed: true, owned: true, closure: true, quick: true },
+    // a reference that is serialized even between identical layouts (Option has no defined layout)
+    AK { id: "ropt", ty: "&Option<u32>", pass: "&$", is_ref: true, fixed: false, owned: false, closure: false, quick: true },
     // thorough-only kinds
-    AK { id: "rt2", ty: "&dyn T2", pass: "&$", is_ref: true, fixed: true, owned: false, closure: false, quick: false },
-    AK { id: "rmt2", ty: "&mut dyn T2", pass: "&mut $", is_ref: true, fixed: true, owned: false, closure: false, quick: false },
+    AK { id: "rt2", ty: "&dyn T2", pass: "&*$", is_ref: true, fixed: true, owned: false, closure: false, quick: false },
+    AK { id: "rmt2", ty: "&mut dyn T2", pass: "&mut *$", is_ref: true, fixed: true, owned: false, closure: false, quick: false },
     AK { id: "rstring", ty: "&String", pass: "&$", is_ref: true, fixed: false, owned: false, closure: false, quick: false },
-    AK { id: "ropt", ty: "&Option<u32>", pass: "&$", is_ref: true, fixed: false, owned: false, closure: false, quick: false },
     AK { id: "p", ty: "P", pass: "$", is_ref: false, fixed: false, owned: false, closure: false, quick: false },
     AK { id: "rp", ty: "&P", pass: "&$", is_ref: true, fixed: false, owned: false, closure: false, quick: false },
     AK { id: "boxfnmut", ty: "Box<dyn FnMut(u32)>", pass: "$", is_ref: false, fixed: true, owned: true, closure: true, quick: false },
+    AK { id: "boxfnss", ty: "Box<dyn Fn(u32) -> u32 + Send + Sync>", pass: "$", is_ref: false, fixed: true, owned: true, closure: true, quick: false },
+    AK { id: "rfnstr", ty: "&dyn Fn(&str, String) -> String", pass: "&$", is_ref: true, fixed: true, owned: false, closure: true, quick: false },
     AK { id: "tup", ty: "(u32, String)", pass: "$", is_ref: false, fixed: false, owned: false, closure: false, quick: false },
     AK { id: "optstring", ty: "Option<String>", pass: "$", is_ref: false, fixed: false, owned: false, closure: false, quick: false },
 ];
